@@ -3,7 +3,7 @@
    The model (PgpCodecModel.v) is the reference written from RFC 4880; harness/c19.cc compares the real
    CallasDonnerhackeFinneyShawThayerRFC4880 functions with it octet for octet. *)
 From Coq Require Import ZArith NArith List Lia.
-From LT Require Import gen_Consts gen_Tables PgpCodecModel PgpCodecLemmas.
+From LT Require Import gen_Consts gen_Tables PgpCodecModel PgpCodecLemmas PgpArmorLemmas.
 Import ListNotations.
 Local Open Scope N_scope.
 
@@ -95,7 +95,45 @@ Theorem C19_s2k_stream_length : forall cnt nzp data, data <> [] ->
 Proof. exact s2k_stream_length. Qed.
 Print Assumptions C19_s2k_stream_length.
 
+(* ASCII armor: ArmorDecode (as implemented) applied to what ArmorEncode emits, every block type *)
+Theorem C19_armor_roundtrip : forall ty data, octets data -> data <> [] ->
+  armor_decode (armor_encode (Some ty) None [] data) = ArmOk ty data.
+Proof. exact armor_roundtrip. Qed.
+Print Assumptions C19_armor_roundtrip.
+
+(* the full statement (all octet strings) is false: the block emitted for the empty string is refused *)
+Theorem C19_armor_roundtrip_empty_refuted : forall ty, armor_decode (armor_encode (Some ty) None [] []) = ArmBadLayout.
+Proof. exact armor_roundtrip_empty_refuted. Qed.
+Print Assumptions C19_armor_roundtrip_empty_refuted.
+
+(* refusals: any other checksum line, changed data under the old checksum, no blank line, a nested block *)
+Theorem C19_armor_rejects_wrong_checksum : forall ty data c1 c2 c3 c4, octets data -> data <> [] ->
+  Forall (fun c => plainb c = true) [c1; c2; c3; c4] -> [PAD; c1; c2; c3; c4] <> crc24_encode data ->
+  armor_decode (txt ty (radix64_encode true data) [PAD; c1; c2; c3; c4]) = ArmBadChecksum.
+Proof. exact armor_rejects_wrong_checksum. Qed.
+Print Assumptions C19_armor_rejects_wrong_checksum.
+
+Theorem C19_armor_rejects_changed_data : forall ty d1 d2, octets d1 -> octets d2 -> d2 <> [] ->
+  crc24_encode d1 <> crc24_encode d2 ->
+  armor_decode (txt ty (radix64_encode true d2) (crc24_encode d1)) = ArmBadChecksum.
+Proof. exact armor_rejects_changed_data. Qed.
+Print Assumptions C19_armor_rejects_changed_data.
+
+Theorem C19_armor_rejects_missing_separator : forall ty data, octets data -> data <> [] ->
+  armor_decode (head_g false ty ++ (radix64_encode true data ++ crlf ++ crc24_encode data) ++ tail_s ty) = ArmNoSeparator.
+Proof. exact armor_rejects_missing_separator. Qed.
+Print Assumptions C19_armor_rejects_missing_separator.
+
+Theorem C19_armor_rejects_nested : forall ty d1 d2, octets d1 -> octets d2 ->
+  armor_decode (head_s ty ++ armor_encode (Some ty) None [] d2
+                ++ (radix64_encode true d1 ++ crlf ++ crc24_encode d1) ++ tail_s ty) = ArmNested.
+Proof. exact armor_rejects_nested. Qed.
+Print Assumptions C19_armor_rejects_nested.
+
 (* non-vacuity *)
+Example C19_example_armor : txt ArmMessage (radix64_encode true [1]) (crc24_encode [1]) = armor_encode (Some ArmMessage) None [] [1]
+  /\ armor_decode (armor_encode (Some ArmMessage) None [] [1]) = ArmOk ArmMessage [1].
+Proof. vm_compute. split; reflexivity. Qed.
 Example C19_nonvacuous_octets : octets [0; 255; 61; 13; 10].
 Proof. unfold octets, octet. repeat constructor. Qed.
 Example C19_example_radix64 : radix64_encode true [0x14; 0xFB; 0x9C; 0x03; 0xD9; 0x7E] = [70; 80; 117; 99; 65; 57; 108; 43].   (* RFC 4648 vector "FPucA9l+" *)
